@@ -59,6 +59,13 @@ const passChars = "0123456789abcdefghijklmnopqrstuvwxyzABCDEFGHIJKLMNOPQRSTUVWXY
 
 func randPass(r *rng.R) string {
 	n := 6 + r.Intn(35)
+	// the boundary lengths of a legal passphrase often: code that sizes a buffer for "the longest legal passphrase"
+	// behaves differently exactly there (seed C05f: a 40 byte passphrase plus any tail was accepted once unlocked)
+	if r.Chance(25) {
+		n = 40
+	} else if r.Chance(10) {
+		n = 6
+	}
 	b := make([]byte, n)
 	for i := range b {
 		b[i] = r.Pick(passChars)
